@@ -1012,13 +1012,15 @@ def rsum(eng, st, arr=None, n=None):
         apps = st.ghost.setdefault('rsum_apps', [])
         if not any(x.eq(arr) and y.eq(n) for x, y in apps):
             eng.assumed.add("lemma (proved by induction in lemmas/l_sums.py): arrays equal on [0,n) have equal rsum(.,n); "
-                            "rsum of an array constant on [0,n) is n times the constant")
+                            "rsum of an array constant on [0,n) is n times the constant; rsum of non-negative terms is non-negative")
             s_ = z3.Int(fresh_name('rs'))
             for (x, y) in apps:
                 prem = z3.ForAll([s_], z3.Implies(z3.And(0 <= s_, s_ < n), z3.Select(arr, s_) == z3.Select(x, s_)))
                 st.pc.append(z3.Implies(z3.And(n == y, prem), f(arr, n) == f(x, y)))
             prem = z3.ForAll([s_], z3.Implies(z3.And(0 <= s_, s_ < n), z3.Select(arr, s_) == z3.Select(arr, 0)))
             st.pc.append(z3.Implies(z3.And(n >= 0, prem), f(arr, n) == z3.ToReal(n) * z3.Select(arr, 0)))
+            prem = z3.ForAll([s_], z3.Implies(z3.And(0 <= s_, s_ < n), z3.Select(arr, s_) >= 0))
+            st.pc.append(z3.Implies(z3.And(n >= 0, prem), f(arr, n) >= 0))
             st.ghost['rsum_apps'] = apps + [(arr, n)]
     return f
 
@@ -1117,3 +1119,17 @@ def matmul(eng, st, a, b, node):
         st.assume(sa[0] == sb[0])
     f = eng.uf('dot11', da.sort(), db.sort(), I, R)
     return vreal(f(da, db, sa[0]))
+
+
+def call_opaque(eng, st, fv, args, kwargs, node):
+    """Call of a caller-supplied callable (the rho-update callback): ASSUMED to return a positive real,
+    to be a function of its arguments, and to have no effect on the heap."""
+    if fv.k[1] != 'callable':
+        raise Unsupported("call of opaque %r" % (fv.k,))
+    used(eng, "rho_update callback: returns a positive real that is a function of its five arguments; no side effects")
+    f = eng.uf('rho_update_fn', I, R, R, R, R, R, R)
+    if len(args) != 5 or kwargs:
+        raise Unsupported("callback arity")
+    r = f(fv.t, *[to_real(a) for a in args])
+    st.assume(r > 0)
+    return vreal(r)
